@@ -88,7 +88,7 @@ def filt_src(f):
     if t == "not":
         return f"not ({filt_src(f[1])})"
     if t == "name":
-        return f[1]
+        return f[1] if len(f) == 2 else f"{f[1]}[{f[2]!r}]"
     return "True"
 
 
@@ -103,7 +103,7 @@ def filt_sx(f):
     if t == "not":
         return ["not", filt_sx(f[1])]
     if t == "name":
-        return ["name", f[1]]
+        return ["name"] + list(f[1:])
     return ["true"]
 
 
@@ -143,19 +143,28 @@ def gen_atom(rng, kind, var=None):
             return ["cmp", rng.choice(["eq", "ne"]), "event_type", "-", rng.choice(EV_TYPES + OUT_TYPES)]
         if var == "trigger_type":
             return ["cmp", rng.choice(["eq", "ne"]), "trigger_type", "-", rng.choice(["event", "zzz"])]
-        if rng.random() < 0.15:
+        if rng.random() < 0.4:
             return ["name", var]
         return ["cmp", rng.choice(ops), var, "-", rng.choice([0, 1, 3, "a", "on"])]
     if kind == "m":
         if var == "topic":
             return ["cmp", rng.choice(["eq", "ne"]), "topic", "-", rng.choice(["t/a", "t/b", "u"])]
+        name = rng.random() < 0.4
         if var == "payload":
+            if name:
+                return ["name", "payload"]
             return ["cmp", rng.choice(["eq", "ne"]), "payload", "-", rng.choice(["on", "5", '{"a": 1}'])]
         if var == "payload_obj":
+            if name:
+                return ["name", "payload_obj"]
             return ["cmp", rng.choice(ops), "payload_obj", "-", rng.choice([1, 5, "s"])]
         if var == "payload_obj[]":
+            if name:
+                return ["name", "payload_obj", rng.choice(["a", "state"])]
             return ["cmp", rng.choice(["eq", "ne", "gt", "le"]), "payload_obj", rng.choice(["a", "state"]), rng.choice([1, 2, "on"])]
         if var == "qos":
+            if name:
+                return ["name", "qos"]
             return ["cmp", rng.choice(["eq", "ne", "gt", "lt", "ge"]), "qos", "-", rng.choice([0, 1])]
         if var == "retain":
             return ["name", "retain"] if rng.random() < 0.5 else ["cmp", "eq", "retain", "-", rng.choice([0, 1])]
@@ -165,6 +174,8 @@ def gen_atom(rng, kind, var=None):
     if var == "payload":
         return ["name", "payload"]
     if var == "payload[]":
+        if rng.random() < 0.4:
+            return ["name", "payload", rng.choice(["a", "b", "k"])]
         return ["cmp", rng.choice(ops), "payload", rng.choice(["a", "b", "k"]), rng.choice([1, "1", "2", "v"])]
     return ["cmp", rng.choice(["eq", "ne"]), "trigger_type", "-", "webhook"]
 
@@ -197,7 +208,7 @@ def filt_vars(f):
     out = set()
     for a in filt_atoms(f):
         if a[0] == "name":
-            out.add(a[1])
+            out.add(a[1] if len(a) == 2 else a[1] + "[]")
         else:
             out.add(a[2] if a[3] == "-" else a[2] + "[]")
     return out
@@ -206,7 +217,8 @@ def filt_vars(f):
 def sat_value(rng, atom):
     """a value that makes the atom true (mostly) - used to aim occurrences at the filters of the scenario"""
     if atom[0] == "name":
-        return 1
+        # truthiness of a value: truthy and falsy objects that are not booleans
+        return rng.choice([1, 3, "x", 0, None, ""])
     _, op, _key, _sub, lit = atom
     if isinstance(lit, int):
         return {"eq": lit, "ne": lit + 1, "gt": lit + 1, "ge": lit, "lt": lit - 1, "le": lit}[op]
@@ -217,7 +229,10 @@ def aimed_assign(rng, d):
     """variable -> value suggested by the decorator's filter (first atom of each variable wins)"""
     out = {}
     for a in filt_atoms(d["filt"]):
-        key = a[1] if a[0] == "name" else (a[2] if a[3] == "-" else (a[2], a[3]))
+        if a[0] == "name":
+            key = a[1] if len(a) == 2 else (a[1], a[2])
+        else:
+            key = a[2] if a[3] == "-" else (a[2], a[3])
         if key not in out:
             out[key] = sat_value(rng, a)
     return out
@@ -251,6 +266,8 @@ def gen_occurrence(rng, d, aim):
             return ["w", d["key"], False, None, [[k, v] for k, v in subs_.items()] + ([[next(iter(subs_)), "zz"]] if rng.random() < 0.3 else [])]
         if subs_:
             return ["w", d["key"], True, subs_, []]
+        if "payload" in asg:
+            return ["w", d["key"], True, {"a": 1} if asg["payload"] else {}, []]
         if rng.random() < 0.5:
             return ["w", d["key"], True, rng.choice([{"a": 1, "k": "v"}, {"b": "2"}, {}, 5, {"a": 2, "b": 1}]), []]
         return ["w", d["key"], False, None,
@@ -370,6 +387,27 @@ DIRECTED = [
                              _ddec("e", "e1", ["and", ["name", "context"], ["cmp", "ne", "y", "-", "a"]], 3)])],
      "ops": [["e", "e0", [["x", 5]]], ["e", "e0", [["x", 1]]], ["e", "e0", []], ["e", "e0", [["x", 4], ["trigger_type", "zzz"]]],
              ["e", "e1", [["y", "a"]]], ["e", "e1", [["y", "b"]]], ["e", "e1", [["x", 1]]]],
+     "takes": [0]},
+    # the filter's value is an object, not a bool: 0 / None / '' / {} must reject, 3 / 'x' / {...} must accept
+    {"funcs": [_dfunc("f0", [_ddec("e", "e0", ["name", "x"], 0),
+                             _ddec("e", "e0", ["and", ["name", "y"], ["name", "n"]], 1)]),
+               _dfunc("f1", [_ddec("m", "u", ["name", "payload_obj"], 2),
+                             _ddec("m", "u", ["or", ["name", "qos"], ["name", "payload_obj", "a"]], 3)])],
+     "ops": [["e", "e0", [["x", 0], ["y", "a"], ["n", 0]]], ["e", "e0", [["x", None], ["y", ""], ["n", 1]]],
+             ["e", "e0", [["x", ""], ["y", "a"], ["n", None]]], ["e", "e0", [["x", 3], ["y", "a"], ["n", 2]]],
+             ["e", "e0", [["x", "x"], ["y", 1], ["n", ""]]],
+             ["m", "u", "u", "0", 0, False], ["m", "u", "u", "null", 0, False], ["m", "u", "u", '""', 0, False],
+             ["m", "u", "u", "{}", 0, False], ["m", "u", "u", '{"a": 0}', 0, False], ["m", "u", "u", '{"a": "x"}', 0, False],
+             ["m", "u", "u", "5", 1, False], ["m", "u", "u", '{"a": null}', 0, True]],
+     "takes": [0]},
+    {"funcs": [_dfunc("f0", [_ddec("w", "h0", ["name", "payload"], 0)]),
+               _dfunc("f1", [_ddec("w", "h1", ["name", "payload", "a"], 1)]),
+               _dfunc("f2", [_ddec("m", "t/+", ["name", "payload"], 2)])],
+     "ops": [["w", "h0", True, {}, []], ["w", "h0", True, {"a": 0}, []], ["w", "h0", False, None, []],
+             ["w", "h0", False, None, [["a", "1"]]],
+             ["w", "h1", True, {"a": 0}, []], ["w", "h1", True, {"a": None}, []], ["w", "h1", True, {"a": ""}, []],
+             ["w", "h1", True, {"a": "x"}, []], ["w", "h1", True, {"a": 3}, []], ["w", "h1", True, {"b": 1}, []],
+             ["m", "t/+", "t/a", "", 0, False], ["m", "t/+", "t/b", "on", 0, False]],
      "takes": [0]},
 ]
 
